@@ -1,51 +1,71 @@
 //go:build verif
 
+// Driver for C11 (exactly one reply per admitted query): facts + function
+// level correspondence (rw, wg) + mid level (dedup, srvh) + system level
+// (sys, l3 world behind real sockets).
 package main
 
 import (
 	"fmt"
 	"os"
-	"sync"
+	"strings"
 	"time"
 
-	"github.com/miekg/dns"
+	"github.com/semihalev/sdns/config"
 	"github.com/semihalev/sdns/internal/verif/vlib"
+	"github.com/semihalev/sdns/middleware"
+	"github.com/semihalev/sdns/middleware/cache"
+	"github.com/semihalev/sdns/server"
 )
+
+func exec(op string) vlib.Res {
+	f := strings.Fields(op)
+	if len(f) < 2 {
+		return vlib.Res{Impl: "bad-op"}
+	}
+	switch f[0] {
+	case "rw":
+		return execRW(f)
+	case "wg":
+		return execWG(f)
+	case "dedup":
+		return execDedup(f)
+	case "sys":
+		return execSys(f)
+	}
+	return vlib.Res{Impl: "bad-op"}
+}
+
+func facts() map[string]any {
+	middleware.Reset()
+	dir, _ := os.MkdirTemp(os.Getenv("VERIF_DIR")+"/build/tmp-c11", "facts")
+	defer os.RemoveAll(dir)
+	cfg := new(config.Config)
+	cfg.Directory = dir
+	cfg.CacheSize = 1024
+	cfg.Bind = "127.0.0.1:0"
+	c := cache.New(cfg)
+	defer c.Stop()
+	srv := server.New(cfg) // cfg.QueryTimeout left zero: the code's own default
+	return map[string]any{
+		"regroup_limit":            cache.VerifC11RegroupLimit(),
+		"wg_timeout_ms":            int(cache.VerifC11DedupTimeout(c) / time.Millisecond),
+		"query_timeout_default_ms": int(server.VerifC11QueryTimeout(srv) / time.Millisecond),
+		"rw_table":                 rwTable(),
+	}
+}
 
 func main() {
 	if len(os.Args) > 1 && os.Args[1] == "try" {
 		vlib.Quiet()
-		t0 := time.Now()
-		e := newSysEnv(false, 0)
-		fmt.Println("env up", time.Since(t0), "inline", e.inline)
-		var cs []*client
-		id := uint16(100)
-		for _, f := range faults {
-			for _, k := range []string{"udp", "tcp"} {
-				id++
-				cs = append(cs, &client{kind: k, zone: f, name: "a1." + f + ".test.", qtype: dns.TypeA, id: id})
-			}
+		for _, op := range os.Args[2:] {
+			t0 := time.Now()
+			r := exec(op)
+			fmt.Printf("%s\n   impl=%s oracle=%s tags=%s (%.1fs)\n", op, r.Impl, r.Oracle, r.Tags, time.Since(t0).Seconds())
 		}
-		var wg sync.WaitGroup
-		for _, c := range cs {
-			wg.Add(1)
-			go func(c *client) {
-				defer wg.Done()
-				if c.kind == "udp" {
-					e.runUDP(c, 3500*time.Millisecond)
-				} else {
-					e.runTCP([]*client{c}, 3500*time.Millisecond, 0)
-				}
-			}(c)
-		}
-		wg.Wait()
-		for _, c := range cs {
-			fmt.Printf("%-8s %-9s n=%d other=%d eof=%v err=%q %v\n", c.kind, c.zone, len(c.replies), c.other, c.eof, c.errs, c.replies)
-		}
-		fmt.Println(e.srv.Quiesced())
-		fmt.Println(sdnsGoroutines())
-		e.close()
-		fmt.Println("closed", time.Since(t0))
+		closeAll()
 		return
 	}
+	defer closeAll()
+	vlib.Main(&vlib.Driver{Facts: facts, Exec: exec, Gen: gen})
 }
